@@ -13,7 +13,7 @@ STUB = ["environment (SimEnv)", "action-space sampler", "train_st callback (Stub
 ASSUMPTIONS = ["DQN family: the update gate checked is `step > batch_size` (the gate named in the property's anchors)",
                "an extra env.reset() after the last episode is not a violation"]
 TIERS = {"quick": {"runs": 120}, "thorough": {"runs": 2400}}
-REQUIRED = ["restart_counter_with_reused_state", "non_identity_task_ids", "budget_exit", "episode_limit_exit", "resume", "warmup_iterations_observed", "returned_counter_exact", "scheduler_totals_exact", "ucb_argmax_checked", "initial_rounds", "protocol_misuse_rejected", "rollouts_checked", "several_tasks_trained"]
+REQUIRED = ["large_global_step", "restart_counter_with_reused_state", "non_identity_task_ids", "budget_exit", "episode_limit_exit", "resume", "warmup_iterations_observed", "returned_counter_exact", "scheduler_totals_exact", "ucb_argmax_checked", "initial_rounds", "protocol_misuse_rejected", "rollouts_checked", "several_tasks_trained"]
 REQUIRED_QUICK = ["budget_exit", "episode_limit_exit", "resume"]
 CHUNK = 24  # TrainSim plans per fresh worker process
 SHRINK_LISTS = [["env", "script"], ["chain"], ["ops"]]
@@ -55,7 +55,20 @@ def make_plan(rng, tier, index):
         if ad.has_total_episodes and rng.random() < 0.4:
             plan["chain"][0]["total_episodes"] = rng.choice([1, 2])
     elif mode == "start_mid" and ad.has_global_step:
-        plan["start_step"] = rng.randint(1, T - 1)
+        if rng.random() < 0.5:
+            plan["start_step"] = rng.randint(1, T - 1)
+        else:
+            # continue a long run: the counter is large, only a few steps are executed (hard-coded periods such as
+            # "every 250 steps" are crossed)
+            start = rng.choice([250, 500, 750, 1000]) - rng.randint(1, 8)
+            n = rng.choice([10, 14, 20])
+            plan["start_step"] = start
+            plan["chain"] = [{"total_timesteps": start + n, "total_episodes": None}]
+            plan["env"]["max_steps"] = 4 * n + 200
+            if "learning_starts" in plan["cfg"] and name != "mrq":
+                plan["cfg"]["learning_starts"] = rng.choice([0, 5, start - 3, start + 4])
+            plan["env"]["script"] = trainplan.make_script(rng, n + 10, style=rng.choice(["short", "mixed", "one_step"]))
+            return trainplan.sanitize(plan)
     elif mode == "zero" and ad.has_global_step:
         plan["start_step"] = rng.choice([T, T + 2])
     if rng.random() < 0.6:
